@@ -310,7 +310,15 @@ func (check typecheck) index(n *node, max int) error {
 		return n.cfgErrorf("index %s must be integer", n.typ.id())
 	}
 
-	if !n.rval.IsValid() || max < 1 {
+	if !n.rval.IsValid() {
+		return nil
+	}
+
+	if vInt(n.rval) < 0 {
+		return n.cfgErrorf("index %s must not be negative", n.typ.id())
+	}
+
+	if max < 1 {
 		return nil
 	}
 
